@@ -58,6 +58,7 @@ type World struct {
 	corruptDir  int
 	corruptFrame *TapFrame
 	timingChecked bool
+	corruptPlanned bool
 	RawPeers []*RawPeer
 }
 
